@@ -12,7 +12,8 @@ CHECKS = {
             "conformance of encode_number/decode_number checked by TLC",
             "EoNumbers.tla states the codec as mathematics; TLC enumerates every n below 253^2 (quick) / 253^3 (thorough) and the "
             "whole range for radices 2..6, Apalache proves the three theorems for all 0<=n<253^4; the Python functions are bound "
-            "to the spec by TLC checking tables they produced (exhaustive on the 1-3 byte ranges, stratified on the 4-byte range)",
+            "to the spec by TLC checking tables they produced (exhaustive on the 1-3 byte ranges, stratified on the 4-byte range), also along call "
+            "histories (out-of-range calls interleaved, one mutable buffer refilled, results held until the block is complete: the codec is a function)",
             "TLC/Apalache; the harness only splits integers into 16-bit limbs; 4-byte range of the implementation is stratified",
             "DESIGN.md 6 C07"),
     "C08": ("TLA+ definition of the string codec; TLC exhaustive over short strings and the byte x parity table; bulk table "
@@ -43,15 +44,18 @@ CHECKS = {
             "replayed on PacketSequencer; recorded random histories validated by a TLA+ trace spec",
             "Sequencer.tla: NextSequence/SetStart; TLC explores all histories of runs up to 12 calls between up to 2 (3) updates over 5 "
             "starts of all four SequenceStart classes; every maximal history is replayed on the real class comparing each return value; "
-            "3,000 (20,000) random histories up to 200 events are recorded from the real class and validated by Trace_Sequencer",
+            "3,000 (20,000) random histories up to 200 events (and a dozen of 600-2600) are recorded from the real class and validated by "
+            "Trace_Sequencer; histories include user-defined starts whose value cannot be read yet (FailedRequest: a request that raises is no request); "
+            "Apalache discharges an inductive invariant for unbounded histories",
             "TLC; histories longer/more varied than the exhaustive shape are sampled", "DESIGN.md 6 C13"),
     "C14": ("TLA+ model of member tables and construction histories with object identities; TLC-enumerated and simulated histories "
             "replayed on hand-written and generated enums under CPython 3.12 and 3.11",
             "ProtocolEnum.tla: Construct(enum, n) with identities; TLC checks members never change / one object per member / unrecognized "
             "iff undeclared over all histories of depth 2 (3) on 4 enums x 12 integers (incl. -1, 2^31, 253^4) plus simulated walks of depth 8; "
             "each history is replayed on real enums (one hand-written, three emitted by the real generator) and the full projection (type, "
-            "identity, name, value, int, ==, hash, containment, member tables of all enums) is checked after every construction",
-            "only CPython 3.11/3.12 are installed", "DESIGN.md 6 C14"),
+            "identity, name, value, int, ==, hash, containment, member tables of all enums; keyword form of the construction) is checked after "
+            "every construction, in the presence of namesake classes (declared earlier / module reloaded) and after the generator generated a decoy tree",
+            "every CPython >= 3.8 found at run time (3.8-3.13 here)", "DESIGN.md 6 C14"),
     "C04": ("TLA+ composition EoWriter;EoReader with the matching read and expected value per write; TLC exhaustive over short write "
             "histories; traces observed on the real writer/reader pair judged by TLC with the read-back predicates",
             "EoWire.tla derives, for every accepted write, the matching read, the expected value (cp1252 image; sanitised image) and the "
@@ -85,8 +89,10 @@ CHECKS = {
             "MC_Proto mode rt: TLC explores every object of the lossless bounded domains for every wire-unambiguous program of the corpus and "
             "proves PRoundTrip of the model (a wrong 'wire-unambiguous' tag is found here); each object is built with the generated "
             "constructor, serialized and deserialized by the generated code with fresh writer/reader: equal field by field, all bytes "
-            "consumed, byte_size equal to the byte count at every nesting level",
-            "the corpus (hand-written regression programs) bounds 'all programs'; Appendix A of DESIGN.md is the reading of the XML semantics",
+            "consumed, byte_size equal to the byte count at every nesting level; random larger objects are classified by the model (mode givenrt) "
+            "and round-tripped; programs whose field names are the generated code's own identifiers must round-trip like any other",
+            "the corpus (hand-written + SpecGen-generated programs) bounds 'all programs'; Appendix A of DESIGN.md is the reading of the XML semantics; "
+            "two recorded known findings (F11: fields named reader / reader_start_position)",
             "DESIGN.md 6 C01"),
     "C02": ("TLA+ small-step serializer over the EoWriter spec (one action per XML instruction step, lazy value choice); TLC enumerates "
             "objects and predicts bytes; replay on the code the real generator emits, in two spellings of the boolean defaults",
@@ -108,7 +114,8 @@ CHECKS = {
             "PModeRestored/PDModeRestored are action properties of every frame exit in ProtoSer/ProtoDeser; MC_Proto explores both entry modes "
             "x bounded values / corrupted bytes x a failure injected at each of the first 5 (8) primitive calls; the same behaviours run on "
             "the generated code with a writer/reader that fails at that call; every generated serialize/deserialize (nested structs, array "
-            "elements, case data) is wrapped to record mode at entry and exit; verdict: exit mode = entry mode for every call",
+            "elements, case data) is wrapped to record mode at entry and exit and is also entered directly with either mode; the mode in force "
+            "at every primitive call is compared with the model's log; verdict: exit mode = entry mode for every call, declared mode at every primitive",
             "the corpus bounds 'all programs'; faults are injected at primitive reader/writer calls", "DESIGN.md 6 C15"),
     "C16": ("TLA+ enumeration of all single declaration-violating changes of valid objects (ProtoInvalid) serialized by ProtoSer in "
             "given-object mode; invariant Refused; replay of every violated object on the generated code",
@@ -121,7 +128,8 @@ CHECKS = {
             "PImmutable); replay on constructed and deserialized real instances with projection and re-serialization after every action",
             "MC_Proto mode mut: all histories of 2 (3) actions over assignment to every field/byte_size/nested field, in-place mutation of "
             "array fields and later mutation of the caller's lists; on the real instance assignments must raise AttributeError, array fields "
-            "must be tuples, projection and serialized bytes must never change",
+            "must be tuples, projection and serialized bytes must never change - also when another instance of the class comes into being "
+            "(ProtoObject!Others), when a packet is sent through write(), and when the caller changes its list before the instance was ever read",
             "one representative instance per program (including empty arrays)", "DESIGN.md 6 C19"),
     "C17": ("TLA+ grammar rules as a context walk (ProtoGrammar) + a TLA+ builder machine (SpecGen) that composes valid and violating "
             "templates freely at every placement; TLC enumerates and classifies programs; the real generator must reject every ill-formed one",
@@ -137,7 +145,8 @@ CHECKS = {
             "three spec trees with cross-file references (upstream-like, references between sibling directories, SpecGen programs spread over "
             "files); os.walk is forced into TLC-chosen orders, PYTHONHASHSEED varied, output compared by sha256 per path and the path set "
             "against the model's; every declared class must be the same object in its defining module, its public subpackage, "
-            "eolib.protocol and eolib; every well-formed SpecGen program must be accepted by the generator",
+            "eolib.protocol and eolib; every well-formed SpecGen program must be accepted by the generator; a generator instance reused after a "
+            "failed run, and a run that follows the generation of a decoy tree in the same process, must reproduce the fresh output",
             "hash-seed nondeterminism is sampled; content compared by digest", "DESIGN.md 6 C18"),
     "C20": ("TLA+ model of CPython's import mechanics (PyImport: sys.modules, namespaces, executing-body stack, star-import copying, "
             "__all__, parent attribute binding) run by TLC for every first-import choice on the layout extracted from the real files; fresh "
@@ -145,7 +154,7 @@ CHECKS = {
             "for three spec trees (incl. type names chosen against the package's module names) the package layout is extracted with ast, TLC "
             "executes the import machine for every module a fresh interpreter may import first, real interpreters do the same imports and dump "
             "their namespaces; the verdict is PyImport's predicates evaluated by TLC on the observed namespaces, and the model's own verdict "
-            "must coincide (else machinery error)",
+            "must coincide (else machinery error); the hand-written API documented at the pinned commit (23 names) may not be hidden by a module-level __all__",
             "the import model covers what eolib uses (from-imports, star-imports, __all__, module-level defs); CPython 3.12", "DESIGN.md 6 C20"),
 }
 
